@@ -246,6 +246,159 @@ fn note(log: &mut Log, r: &Value) {
     }
 }
 
+// ------------------------------------------------------------ closed-form huge files (never materialised)
+const RADIX: u64 = 1_000_000; // positions travel as (hi, lo) = hi * 10^6 + lo; 5 | 10^6
+
+/// One record `big` of `len` bases, base(i) = "ACGTN"[i mod 5], `w` bases per line, `t` terminator bytes.
+struct VirtualFasta {
+    len: u64,
+    w: u64,
+    t: u64,
+    pos: u64,
+    chunk: usize, // at most this many bytes per read() call
+}
+
+impl VirtualFasta {
+    /// header line ">big" + terminator
+    fn hlen(&self) -> u64 {
+        4 + self.t
+    }
+    fn size(&self) -> u64 {
+        let full = self.len / self.w;
+        let rest = self.len % self.w;
+        self.hlen() + full * (self.w + self.t) + if rest > 0 { rest + self.t } else { 0 }
+    }
+    fn byte_at(&self, p: u64) -> u8 {
+        if p < 4 {
+            return b">big"[p as usize];
+        }
+        if p < self.hlen() {
+            return if self.t == 2 && p == 4 { b'\r' } else { b'\n' };
+        }
+        let q = p - self.hlen();
+        let line = q / (self.w + self.t);
+        let col = q % (self.w + self.t);
+        let bases_here = self.w.min(self.len - line * self.w);
+        if col < bases_here {
+            b"ACGTN"[((line * self.w + col) % 5) as usize]
+        } else if self.t == 2 && col == bases_here {
+            b'\r'
+        } else {
+            b'\n'
+        }
+    }
+    fn fai(&self) -> String {
+        format!("big\t{}\t{}\t{}\t{}\n", self.len, self.hlen(), self.w, self.w + self.t)
+    }
+}
+impl Read for VirtualFasta {
+    fn read(&mut self, buf: &mut [u8]) -> std::io::Result<usize> {
+        let size = self.size();
+        let mut n = 0;
+        while n < buf.len() && n < self.chunk && self.pos < size {
+            buf[n] = self.byte_at(self.pos);
+            self.pos += 1;
+            n += 1;
+        }
+        Ok(n)
+    }
+}
+impl Seek for VirtualFasta {
+    fn seek(&mut self, p: SeekFrom) -> std::io::Result<u64> {
+        let np = match p {
+            SeekFrom::Start(o) => o as i128,
+            SeekFrom::Current(d) => self.pos as i128 + d as i128,
+            SeekFrom::End(d) => self.size() as i128 + d as i128,
+        };
+        if np < 0 {
+            return Err(std::io::Error::new(std::io::ErrorKind::InvalidInput, "negative seek"));
+        }
+        self.pos = np as u64;
+        Ok(self.pos)
+    }
+}
+
+/// One run over a virtual file. `starts` = (start, span) list; every fetch is followed by read and read_iter.
+fn big_run(log: &mut Log, len: u64, w: u64, t: u64, chunk: usize, dump: bool, queries: &[(u64, u64)]) {
+    let cfg = json!({"cls": "big", "w": w, "t": t, "lenhi": len / RADIX, "lenlo": len % RADIX, "R": RADIX,
+                     "name": bytes(b"big")});
+    if !log.begin("big", cfg) {
+        return;
+    }
+    let vf = VirtualFasta { len, w, t, pos: 0, chunk };
+    let fai = vf.fai();
+    if dump {
+        // small instance of the same generator, materialised: binds byte_at() to the layout definition
+        log.call("dump", json!({}), || {
+            let file: Vec<u8> = (0..vf.size()).map(|p| vf.byte_at(p)).collect();
+            json!({"file": bytes(&file), "off": vf.hlen(), "lb": w, "lby": w + t})
+        });
+        log.oblige("virtual_generator_small_dump");
+    }
+    let mut rd: Option<fasta::IndexedReader<VirtualFasta>> = None;
+    log.call("open", json!({}), || {
+        let r = fasta::IndexedReader::new(vf, fai.as_bytes()).unwrap();
+        let q = r.index.sequences();
+        let out = json!({"n": q.len(), "lenhi": q[0].len / RADIX, "lenlo": q[0].len % RADIX});
+        rd = Some(r);
+        out
+    });
+    let mut rd = match rd {
+        Some(r) => r,
+        None => return,
+    };
+    for (qi, &(start, span)) in queries.iter().enumerate() {
+        let stop = start + span;
+        let args = json!({"shi": start / RADIX, "slo": start % RADIX, "span": span, "by_rid": qi % 2});
+        log.call("fetch", args, || {
+            let r = if qi % 2 == 1 { rd.fetch_by_rid(0, start, stop) } else { rd.fetch("big", start, stop) };
+            json!({"ok": ok01(&r)})
+        });
+        log.call("read", json!({}), || {
+            let mut seq: Vec<u8> = b"JUNK".to_vec();
+            match rd.read(&mut seq) {
+                Ok(()) => json!({"ok": 1, "seq": bytes(&seq)}),
+                Err(_) => json!({"ok": 0, "seq": []}),
+            }
+        });
+        log.call("read_iter", json!({}), || match rd.read_iter() {
+            Err(_) => json!({"ok": 0, "items": [], "ierr": 0, "ended": 0, "capped": 0}),
+            Ok(mut it) => {
+                let mut items: Vec<u8> = vec![];
+                let (mut ierr, mut ended, mut capped) = (0, 0, 0);
+                loop {
+                    if items.len() as u64 > span + 8 {
+                        capped = 1;
+                        break;
+                    }
+                    match it.next() {
+                        None => {
+                            ended = 1;
+                            break;
+                        }
+                        Some(Ok(b)) => items.push(b),
+                        Some(Err(_)) => {
+                            ierr = 1;
+                            break;
+                        }
+                    }
+                }
+                json!({"ok": 1, "items": bytes(&items), "ierr": ierr, "ended": ended, "capped": capped})
+            }
+        });
+        let lby = w + t;
+        let byte_off = start / w * lby + start % w;
+        if byte_off >= (1u64 << 32) {
+            log.oblige("fetch_beyond_4GiB");
+        } else if len > (1u64 << 32) {
+            log.oblige("big_control_below_4GiB");
+        }
+        if start / w >= (1u64 << 32) {
+            log.oblige("line_number_beyond_2_32");
+        }
+    }
+}
+
 const NAMECH: &[u8] = b"ABCXYZabcxyz0123456789_.|:-";
 
 fn seq_of(rng: &mut Rng, len: usize) -> Vec<u8> {
@@ -656,6 +809,65 @@ pub fn drive(log: &mut Log) {
             note(log, &rr);
         }
         log.oblige("line_longer_than_bufreader");
+    }
+
+    // ---------------- D: closed-form huge files: positions beyond 4 GiB / line numbers beyond 2^32
+    let two32: u64 = 1 << 32;
+    let mut bigcases: Vec<(u64, u64, u64, bool)> = vec![]; // (len, w, t, dump)
+    for t in 1..=2u64 {
+        bigcases.push((5_000_000_000, 60, t, false));
+        bigcases.push((two32 + 100, 1, t, false));
+        bigcases.push((two32 * 7 / 6 + 977, 7, t, false));
+    }
+    for (len, w) in [(0u64, 3u64), (5, 1), (10, 3), (13, 4), (8, 8), (9, 60)] {
+        bigcases.push((len, w, 1 + (len + w) % 2, true));
+    }
+    for (ci, &(len, w, t, dump)) in bigcases.iter().enumerate() {
+        case += 1;
+        if !log.mine(case) {
+            continue;
+        }
+        let mut rng = Rng::new(seed, 23, case);
+        let lby = w + t;
+        let mut q: Vec<(u64, u64)> = vec![];
+        if dump {
+            for a in 0..=len {
+                for b in a..=len {
+                    if (a + b + ci as u64) % 3 == 0 || b == len {
+                        q.push((a, b - a));
+                    }
+                }
+            }
+            q.push((0, len + 1)); // out of range
+        } else {
+            let maxspan = if w == 1 { 40 } else { 300 };
+            // controls: the beginning, and the last positions whose byte offset stays below 2^32
+            q.push((0, rng.range(1, maxspan) as u64));
+            let below = (two32 - 4096) / lby * w;
+            q.push((below - rng.below(1000), rng.range(1, maxspan) as u64));
+            // byte offsets into the record just below / at / above 2^32, and far above
+            for target in [two32 - lby, two32 - 1, two32, two32 + 1, two32 + lby + 3, two32 + 700_001] {
+                let start = target / lby * w + (target % lby).min(w - 1);
+                if start + maxspan as u64 <= len {
+                    q.push((start, rng.range(1, maxspan) as u64));
+                }
+            }
+            // line numbers around 2^32 (narrow lines), the end of the record, a refusal
+            for start in [two32 * w - 2, two32 * w, two32 * w + 41] {
+                if start + maxspan as u64 <= len {
+                    q.push((start, rng.range(1, maxspan) as u64));
+                }
+            }
+            let span = rng.range(1, maxspan) as u64;
+            q.push((len - span, span));
+            q.push((len - 3, 4)); // stop = len + 1: refused
+            for _ in 0..3 {
+                let start = two32 / lby * w + rng.below(len - two32 / lby * w - maxspan as u64);
+                q.push((start, rng.range(0, maxspan) as u64));
+            }
+        }
+        let chunk = [usize::MAX, 1000, 8192, 61][ci % 4];
+        big_run(log, len, w, t, chunk, dump, &q);
     }
 }
 
